@@ -195,7 +195,7 @@ func TestVerifC05Framing(t *testing.T) {
 		}
 		close(env.stop)
 		env.wg.Wait()
-		VerifHook = nil
+		rcSetHook(nil)
 	}
 
 	rng := rand.New(rand.NewSource(seed))
